@@ -158,4 +158,65 @@ func c03(g *Gen) {
 			g.Emit("C03.ordertypes", list(til...), render(o.OrderTypes(tl), nm), append(cls, "order-types")...)
 		}
 	}
+	// generator.NewContext on universes parsed from generated programs: Context.Order is the
+	// canonical order under the naming system selected BY NAME; no order when the name is unknown
+	for i := 0; i < g.N(12, 200); i++ {
+		prog, _ := g.genProgram(false, 1+g.R.Intn(3), 1+g.R.Intn(2))
+		mkSystems := func() namer.NameSystems {
+			return namer.NameSystems{"public": namer.NewPublicNamer(1), "private": namer.NewPrivateNamer(0), "raw": namer.NewRawNamer("", nil)}
+		}
+		order := g.Pick([]string{"public", "private", "raw", "raw", "nosuch"})
+		ctx, err := c03context(g, i, prog, mkSystems(), order)
+		if err != nil {
+			panic(err)
+		}
+		if order == "nosuch" {
+			g.Emit("C03.newcontext!", list(atom(order), num(len(ctx.Order))), boolS(len(ctx.Order) == 0), "newcontext", "newcontext-unknown-order-name")
+			continue
+		}
+		nm := mkSystems()[order]
+		byPkg := map[string]map[string][]string{}
+		add := func(table string, t *types.Type) {
+			p := t.Name.Package
+			if byPkg[p] == nil {
+				byPkg[p] = map[string][]string{}
+			}
+			byPkg[p][table] = append(byPkg[p][table], list(atom(nm.Name(t)), atom(t.Name.Package), atom(t.Name.Name), atom(string(t.Kind))))
+		}
+		total := 0
+		for _, p := range ctx.Universe {
+			for _, t := range p.Types {
+				add("types", t)
+				total++
+			}
+			for _, t := range p.Functions {
+				add("funcs", t)
+				total++
+			}
+			for _, t := range p.Variables {
+				add("vars", t)
+				total++
+			}
+			for _, t := range p.Constants {
+				add("consts", t)
+				total++
+			}
+		}
+		var ps []string
+		for p := range byPkg {
+			ps = append(ps, p)
+		}
+		sort.Strings(ps)
+		var pk []string
+		for _, p := range ps {
+			tb := func(k string) string { x := byPkg[p][k]; sort.Strings(x); return list(x...) }
+			pk = append(pk, list(atom(p), tb("types"), tb("funcs"), tb("vars"), tb("consts")))
+		}
+		var it []string
+		for _, t := range ctx.Order {
+			it = append(it, list(atom(nm.Name(t)), atom(t.Name.Package), atom(t.Name.Name), atom(string(t.Kind))))
+		}
+		g.Emit("C03.order", list(pk...), list(it...), "universe", "namer-"+order, "newcontext", "parsed-universe")
+		g.Emit("C03.newcontext!", list(atom(order), num(len(ctx.Order))), boolS(len(ctx.Order) == total), "newcontext")
+	}
 }
